@@ -249,6 +249,7 @@ def run(ctx: Ctx):
     _discount_matrix(ctx, tdr)
     # ---- S4 feat_deltas: each dimension argument is normalised against the rank of the tensor it indexes -----------
     _delta_dims(ctx)
+    _time_axis_round_trip(ctx)
     # ---- S5 store refuses exactly the counts for which a divisor on its path is zero ------------------------------
     _store_threshold(ctx)
     # ---- S1' store only reads the accumulated statistics: no in-place operation on them or on their aliases -------
@@ -457,6 +458,7 @@ def _discount_matrix(ctx: Ctx, tdr):
         rd = ReachingDefs(node)
         time_axis = 1 if bf else 0
         ratio = []
+        maskmul = []
 
         def ev(e, depth=0):
             if depth > 20:
@@ -530,6 +532,22 @@ def _discount_matrix(ctx: Ctx, tdr):
                 if v[0] == "index":
                     return ("vec", 1, v[1])
                 raise Undecided("power of a non-index")
+            if isinstance(e, ast.Compare) and len(e.ops) == 1 and isinstance(e.ops[0], (ast.GtE, ast.Gt, ast.LtE, ast.Lt)) \
+                    and u(e.comparators[0]) in ("0", "0.0"):
+                v = ev(e.left, depth + 1)
+                if v[0] == "imat":
+                    sg_ = 1 if isinstance(e.ops[0], (ast.GtE, ast.Gt)) else -1
+                    return ("cond", sg_ * v[1], sg_ * v[2], v[3])
+                raise Undecided("comparison of a non-exponent")
+            if isinstance(e, ast.BinOp) and isinstance(e.op, ast.Mult):
+                # a 0/1 mask multiplied onto the powers: `pow(gamma, t' - t) * (t' - t >= 0)`
+                a, b = ev(e.left, depth + 1), ev(e.right, depth + 1)
+                if a[0] == "cond":
+                    a, b = b, a
+                if a[0] == "mat" and b[0] == "cond" and a[3] is None and a[4] == b[3]:
+                    maskmul.append(u(e)[:80])
+                    keep_ = "i>=j" if (b[1], b[2]) == (1, -1) else "i<=j" if (b[1], b[2]) == (-1, 1) else "?"
+                    return ("mat", a[1], a[2], keep_, a[4])
             if isinstance(e, ast.BinOp) and isinstance(e.op, (ast.Div, ast.Mult)):
                 ratio.append(u(e)[:70])
                 a, b = ev(e.left, depth + 1), ev(e.right, depth + 1)
@@ -572,11 +590,41 @@ def _discount_matrix(ctx: Ctx, tdr):
                f"the discount gamma^(t' - t) is computed as a ratio / product of powers `{ratio[0] if ratio else ''}`: once gamma^t "
                f"underflows to 0 (gamma < 1) or overflows (gamma > 1) the entries are 0/0 or inf/inf = NaN and the matmul spreads "
                f"it - e.g. float32, gamma = 0.5, T = 200 gives 50 NaN returns; pow(gamma, t' - t) is exact", "_rl.py", rets[0].lineno)
+        col.ob("G20", "S3", f"_rl.py::time_distributed_return::unused-triangle-removed-not-multiplied-away[batch_first={bf}]", not maskmul,
+               f"`{maskmul[0] if maskmul else ''}` keeps the wanted triangle by multiplying the powers with a 0/1 mask: on the other triangle "
+               f"the exponent t' - t is negative and gamma ** negative overflows to inf for gamma < 1 over a long horizon (0.5 ** -200), "
+               f"and inf * 0 = NaN, which the matmul spreads over the returns; clamp the exponent or take tril / triu", "_rl.py",
+               rets[0].lineno)
         col.ob("G12", "S3", key, ok,
                f"with batch_first={bf} the return is {'matmul(r, D)' if r_first else 'matmul(D, r)'} with D[i, j] = "
                f"gamma^({ci}*i + {cj}*j) kept where {keep}, D sized by axis {axis} and contracted over axis {contracted} of r; "
                f"R_t = sum_(t' >= t) gamma^(t' - t) r_t' needs exponents {want[0]}*i + {want[1]}*j on {want[2]} over the time "
                f"axis {time_axis}", "_rl.py", rets[0].lineno, sample=dict(ci=ci, cj=cj, keep=keep, axis=axis, r_first=r_first))
+
+
+def _time_axis_round_trip(ctx: Ctx):
+    """S4': feat_deltas takes the time axis to the end, convolves, and puts it back. A swap (transpose) is undone by the same swap and
+    a move (movedim) by the opposite move; undoing a swap with a move rotates the axes in between, so for a time axis left of the
+    last two the other axes come out permuted (or silently transposed when their sizes agree)."""
+    col, pkg = ctx.col, ctx.pkg
+    f = pkg.func("_feats::feat_deltas")
+    rel = f.module.relname
+    tname = "time_dim"
+    if tname not in {p.name for p in f.params}:
+        col.undecided(f"{rel}::feat_deltas: no time_dim formal")
+        return
+    kinds = []
+    for c in own_calls(f.node):
+        nm = c.func.attr if isinstance(c.func, ast.Attribute) else call_name(c).split(".")[-1]
+        if nm in ("transpose", "swapaxes", "swapdims", "movedim", "moveaxis", "permute") and any(
+                isinstance(a, ast.Name) and a.id == tname for a in list(c.args) + [k.value for k in c.keywords]):
+            kinds.append(("swap" if nm in ("transpose", "swapaxes", "swapdims") else "move" if nm in ("movedim", "moveaxis") else nm, c))
+    col.floor("time_axis_permutations", len(kinds), 1)
+    ks = {k for k, _ in kinds}
+    col.ob("G19", "S4", f"{rel}::feat_deltas::time-axis-put-back-the-way-it-was-taken-out", len(ks) == 1,
+           f"the time axis is permuted with {[(k, u(c)[:50]) for k, c in kinds]}: a swap undone by a move (or the reverse) leaves the axes "
+           f"between time_dim and the end rotated - for time_dim left of the last two dimensions the output has the wrong layout", rel,
+           kinds[0][1].lineno if kinds else f.line, sample=[k for k, _ in kinds])
 
 
 def _store_is_read_only(ctx: Ctx):
